@@ -897,3 +897,21 @@ func bindsKey(b map[ssa.Value]*ssa.Function) string {
 	sort.Strings(ks)
 	return strings.Join(ks, ",")
 }
+
+// outcomesOf: the (ghost out, result) outcomes of fn entered with the ghost bit clear, under the run's spec
+// (used after ghostVerdict: the summaries are memoised).
+func (r *ghostRun) outcomesOf(fn *ssa.Function) []ghostOutcome {
+	if fn == nil || fn.Blocks == nil {
+		return nil
+	}
+	var out []ghostOutcome
+	for round := 0; round < 12; round++ {
+		r.grew = false
+		r.done = map[string]bool{}
+		out = r.run(fn, false, boolResultIndex(fn), false, 1, nil)
+		if !r.grew {
+			break
+		}
+	}
+	return out
+}
